@@ -2283,6 +2283,8 @@ def _pack_layout(layout):
     # BitMaskedArrays can change length
     elif isinstance(layout, ak.layout.BitMaskedArray):
         layout = layout.simplify()
+        if not isinstance(layout, ak.layout.BitMaskedArray):
+            return _pack_layout(layout)
 
         if not isinstance(ak.type(layout.content), ak.types.PrimitiveType):
             return layout.toIndexedOptionArray64()
@@ -2300,6 +2302,8 @@ def _pack_layout(layout):
     # ByteMaskedArrays can change length
     elif isinstance(layout, ak.layout.ByteMaskedArray):
         layout = layout.simplify()
+        if not isinstance(layout, ak.layout.ByteMaskedArray):
+            return _pack_layout(layout)
 
         if not isinstance(ak.type(layout.content), ak.types.PrimitiveType):
             return layout.toIndexedOptionArray64()
